@@ -85,7 +85,130 @@ def run(ctx, res):
                                    msg="%s: the exit returning %s can follow a write to the editor (a rejected operation must change nothing)" % (np_, lab)))
         check_moves(res, cfg, lib)
         check_char_units(res, cfg, lib)
+    check_content(ctx, res)
     res.exhaustive = True
+
+
+def check_content(ctx, res):
+    """C: the effect of `insert` / `remove` / `clear` on the buffer *content*, for every content, buffer size, cursor and
+    text (segment algebra over the linear domain, rules/content.py): with i = byte offset of the cursor's character
+    (`char_byte_index(text(), cursor)`, or the end of the text when there is none),
+      insert(t) accepted:  text' = text[..i] ++ t ++ text[i..],  valid' = valid + len(t),  cursor' = cursor + chars(t),
+                           and the returned str is exactly the inserted copy;
+      remove():            text' = text[..i] ++ text[j..] with j the offset of the next character (or the end),
+                           valid' = valid - (j - i), cursor unchanged; nothing changes when the cursor is at the end;
+      clear():             valid' = cursor' = 0."""
+    from .. import absint, fm
+    from . import C03, content
+    from .content import ZERO, Undecided
+    lib = lib_crate(ctx.crates('default'))
+    old = absint.WIDEN_AT
+    absint.WIDEN_AT = 16
+    try:
+        rule = content.ContentE3(lib)
+        inv, keymap = C03.inventory(lib)
+        rule.keymap = keymap
+        meths = {x.name: x for x in session.methods_of(lib, 'editor::Editor')}
+        valid0, cursor0, cap = fm.lin_atom('valid0'), fm.lin_atom('cursor0'), fm.lin_atom('cap(B)')
+        n_exits = 0
+
+        def judge(w, name, rv, cur, val, cbis, fx, args, ob, eq):
+            if name == 'clear':
+                ob('fields', eq(cur, ZERO) and eq(val, ZERO), "clear() does not leave cursor = valid = 0")
+                ob('no-write', not fx, "clear() writes into the buffer")
+                return
+            # the cursor's byte offset: one char_byte_index(text(), cursor) on the whole text
+            first = cbis[0] if cbis else None
+            anchored = first is not None and first[2] == 'B' and first[3] == ZERO and eq(first[4], valid0) and eq(first[5], cursor0)
+            if name == 'insert' and rv[0] == 'adt' and rv[2] == 0:
+                ob('reject-unchanged', not fx and eq(cur, cursor0) and eq(val, valid0),
+                   "the rejecting exit writes into the buffer or changes cursor / valid")
+                return
+            if name == 'insert':
+                ob('cursor-offset', anchored and len(cbis) == 1,
+                   "the insertion point is not char_byte_index(text(), cursor) (found %d conversions)" % len(cbis))
+                if not anchored:
+                    return
+                i = fm.lin_atom(first[1]) if first[1] else valid0
+                t = args[1]
+                tl = C03.L(t[2])
+                tname = content.base_of(t[1])
+                c = content.replay(rule, w, 'B', cap)
+                newlen = fm.add(valid0, tl)
+                got = c.prefix(newlen)
+                want = [(ZERO, i, ('old', ZERO)), (i, fm.add(i, tl), ('text', tname, fm.add(ZERO, i, -1))),
+                        (fm.add(i, tl), newlen, ('old', fm.add(ZERO, tl, -1)))]
+                same, why = c.same(got, want)
+                ob('inserted-at-cursor', same, "the text after an accepted insert is not text[..i] ++ t ++ text[i..]: got " + why)
+                ob('valid', eq(val, newlen), "valid' != valid + len(t) after an accepted insert")
+                ccs = [m for m in content.markers(w, 'cc') if m[1][:2] == ('text', tname) and eq(m[2], tl)]
+                ob('cursor', bool(ccs) and len(ccs) == 1 and eq(cur, fm.add(cursor0, fm.lin_atom(ccs[0][0]))),
+                   "cursor' != cursor + char_count(t) after an accepted insert")
+                loc = rule.where(w, rv[3][0]) if rv[0] == 'adt' and rv[2] == 1 else None
+                ob('returns-inserted', loc is not None and loc[0] == 'B' and eq(loc[1], i) and eq(C03.L(rv[3][0][2]), tl),
+                   "the str returned by insert is not the inserted copy (buffer[i..i + len(t)])")
+                return
+            # remove
+            if first is None or not anchored:
+                ob('cursor-offset', False, "the removal point is not char_byte_index(text(), cursor)")
+                return
+            if first[1] is None:
+                ob('end-unchanged', not fx and eq(cur, cursor0) and eq(val, valid0),
+                   "remove() with the cursor at the end of the text changes the editor")
+                return
+            i = fm.lin_atom(first[1])
+            second = cbis[1] if len(cbis) == 2 else None
+            ok2 = second is not None and second[2] == 'B' and eq(second[3], i) and eq(second[4], fm.add(valid0, i, -1)) \
+                and eq(second[5], fm.lin_const(1))
+            ob('next-character', ok2, "the end of the removed character is not char_byte_index(text[i..], 1) (one whole character)")
+            if not ok2:
+                return
+            j = fm.add(i, fm.lin_atom(second[1])) if second[1] else valid0
+            width = fm.add(j, i, -1)
+            newlen = fm.add(valid0, width, -1)
+            c = content.replay(rule, w, 'B', cap)
+            got = c.prefix(newlen)
+            want = [(ZERO, i, ('old', ZERO)), (i, newlen, ('old', width))]
+            same, why = c.same(got, want)
+            ob('removed-at-cursor', same, "the text after remove() is not text[..i] ++ text[j..]: got " + why)
+            ob('valid', eq(val, newlen), "valid' != valid - (j - i) after remove()")
+            ob('cursor', eq(cur, cursor0), "remove() moves the cursor")
+
+        for name in ('insert', 'remove', 'clear'):
+            f = meths[name]
+            for label, selfv, facts in C03.editor_entries(Interp([lib], rule)):
+                I = Interp([lib], rule, max_worlds=60000)
+                rule.ctx = 'Editor::' + name
+                args, _ = C03.sym_args(rule, f, ('ref', (-1, 0, ())))
+                exits = I.run(f, args, facts, {(-1, 0): selfv})
+                ci_, vi_ = I.field_index('editor::Editor', 'cursor'), I.field_index('editor::Editor', 'valid')
+                if not exits:
+                    raise KeyError("Editor::%s has no exit in the linear analysis" % name)
+                for w0, rv in exits:
+                    n_exits += 1
+                    ed = w0.store[(-1, 0)]
+                    cur, val = C03.L(ed[3][ci_]), C03.L(ed[3][vi_])
+                    cbis = sorted(content.markers(w0, 'cbi'), key=lambda m: m[0])
+                    fx = [e for e in content.effects_of(w0) if e[1] == 'B']
+
+                    def ob(clause, good, msg, _name=name):
+                        res.oblige("C|%s|%s|%s|%d" % (_name, clause, msg[:60], n_exits), good,
+                                   sample="content %s %s" % (_name, clause),
+                                   violation=None if good else dict(rule='C05.content', key="C05|content|%s|%s" % (_name, clause),
+                                                                    msg="editor::Editor::%s: %s" % (_name, msg)))
+
+                    def body(w, name=name, rv=rv, cur=cur, val=val, cbis=cbis, fx=fx, args=args, ob=ob):
+                        def eq(a, b):
+                            return a is not None and b is not None and rule.prove(w, fm.le(a, b)) and rule.prove(w, fm.le(b, a))
+                        judge(w, name, rv, cur, val, cbis, fx, args, ob, eq)
+                    try:
+                        content.cases(rule, w0, body)
+                    except Undecided as e:
+                        ob('undecided', False, "the buffer content at an exit cannot be decided: %s" % e)
+        if n_exits < 7:
+            raise KeyError("Editor insert/remove/clear: only %d exits analysed" % n_exits)
+    finally:
+        absint.WIDEN_AT = old
 
 
 def check_char_units(res, cfg, lib):
